@@ -27,6 +27,7 @@ func genAll() {
 	genResolveSrc()
 	genResolverSrc()
 	genFrag()
+	genPanics()
 }
 
 // ---------------------------------------------------------------------------------
